@@ -10,8 +10,11 @@ package checks
 // assertions are one-sided with generous slack.
 
 import (
+	"crypto/tls"
 	"fmt"
 	"net"
+	"os"
+	"path/filepath"
 	"runtime"
 	"strings"
 	"sync"
@@ -37,10 +40,13 @@ type c17Case struct {
 	IdleMs  int       `json:"idle_ms"`
 	Via     string    `json:"via"` // listen | export
 	Steps   []c17Step `json:"steps"`
+	// TLS: the listener is a TLS listener and every client is a TLS client; the connection bookkeeping (limit,
+	// accounting, idle reaping, shutdown) is the same property on both kinds of listener.
+	TLS bool `json:"tls,omitempty"`
 }
 
 func genC17(t *rapid.T) c17Case {
-	c := c17Case{MaxConn: rapid.IntRange(1, 6).Draw(t, "max"), IdleMs: pick(t, "idle", 100, 150, 200, 300, 60000, 60000), Via: pick(t, "via", "listen", "export")}
+	c := c17Case{MaxConn: rapid.IntRange(1, 6).Draw(t, "max"), IdleMs: pick(t, "idle", 100, 150, 200, 300, 60000, 60000), Via: pick(t, "via", "listen", "export"), TLS: rapid.IntRange(0, 2).Draw(t, "tls") == 0}
 	n := rapid.IntRange(2, 9).Draw(t, "n")
 	for i := 0; i < n; i++ {
 		st := c17Step{Kind: pick(t, "kind", "dial", "dial", "dial", "null", "close", "close", "idle", "refuse", "stop", "closenfs", "unexport"), N: rapid.IntRange(1, 8).Draw(t, "k")}
@@ -122,9 +128,41 @@ func runC17(tb stat.TB, c c17Case) {
 	const id, check = "C17", "TestC17"
 	v := vfs.New()
 	v.SeedFile("/f", 0644, 0, 0, []byte("x"))
-	n, err := absnfs.New(v, absnfs.ExportOptions{MaxConnections: c.MaxConn, IdleTimeout: time.Duration(c.IdleMs) * time.Millisecond, EnableDirCache: true, MaxWorkers: 2})
+	eopts := absnfs.ExportOptions{MaxConnections: c.MaxConn, IdleTimeout: time.Duration(c.IdleMs) * time.Millisecond, EnableDirCache: true, MaxWorkers: 2}
+	var clientTLS *tls.Config
+	if c.TLS {
+		p, err := getPKI()
+		if err != nil {
+			tb.Fatalf("harness: pki: %v", err)
+		}
+		dir, err := os.MkdirTemp("", "verif-c17-")
+		if err != nil {
+			tb.Fatalf("harness: %v", err)
+		}
+		defer os.RemoveAll(dir)
+		certFile, keyFile := filepath.Join(dir, "server.pem"), filepath.Join(dir, "server.key")
+		os.WriteFile(certFile, p.server1Cert, 0600)
+		os.WriteFile(keyFile, p.server1Key, 0600)
+		tc := absnfs.DefaultTLSConfig()
+		tc.Enabled, tc.CertFile, tc.KeyFile = true, certFile, keyFile
+		eopts.TLS = tc
+		clientTLS = &tls.Config{RootCAs: p.caPool, ServerName: "localhost"}
+	}
+	n, err := absnfs.New(v, eopts)
 	if err != nil {
 		tb.Fatalf("harness: %v", err)
+	}
+	// dialTo opens a client connection of the listener's kind (for TLS: handshake included; a connection the server
+	// drops at admission then fails here, which every caller treats as "no connection").
+	dialTo := func(addr string, d time.Duration) (net.Conn, error) {
+		if clientTLS == nil {
+			return net.DialTimeout("tcp", addr, d)
+		}
+		tc, err := tls.DialWithDialer(&net.Dialer{Timeout: d}, "tcp", addr, clientTLS)
+		if err != nil {
+			return nil, err
+		}
+		return tc, nil
 	}
 	var srv *absnfs.Server
 	if c.Via == "export" {
@@ -232,7 +270,7 @@ func runC17(tb stat.TB, c c17Case) {
 		}
 	}()
 	// populate handles and caches so that Close/Unexport have something to release
-	if cl, err := net.DialTimeout("tcp", addr, 2*time.Second); err == nil {
+	if cl, err := dialTo(addr, 2*time.Second); err == nil {
 		cl.SetDeadline(time.Now().Add(3 * time.Second))
 		cl.Write(nfsx.Frame(nfsx.Call(1, nfsx.ProgMount, 3, 1, nfsx.AuthSys(1, "h", 0, 0, nil), nfsx.AuthNone(), (&nfsx.W{}).Str("/").B)))
 		if rec, err := nfsx.ReadRecord(cl, 1<<20); err == nil {
@@ -266,7 +304,7 @@ func runC17(tb stat.TB, c c17Case) {
 			if c.Via != "export" || stopped || nfsClosed || rootFh == nil || openServed() >= c.MaxConn {
 				continue
 			}
-			cl, err := net.DialTimeout("tcp", addr, 2*time.Second)
+			cl, err := dialTo(addr, 2*time.Second)
 			if err != nil {
 				continue
 			}
@@ -289,7 +327,7 @@ func runC17(tb stat.TB, c c17Case) {
 		case "dial":
 			if stopped {
 				// after Stop dials must be refused (or the connection closed at once without service)
-				cl, err := net.DialTimeout("tcp", addr, time.Second)
+				cl, err := dialTo(addr, time.Second)
 				if err == nil {
 					xid++
 					if c17Null(cl, xid, time.Second) {
@@ -309,7 +347,7 @@ func runC17(tb stat.TB, c c17Case) {
 				wg.Add(1)
 				go func(i int) {
 					defer wg.Done()
-					cl, err := net.DialTimeout("tcp", addr, 2*time.Second)
+					cl, err := dialTo(addr, 2*time.Second)
 					if err != nil {
 						return
 					}
@@ -404,7 +442,7 @@ func runC17(tb stat.TB, c c17Case) {
 				tb.Fatalf("harness: %v", err)
 			}
 			for i := 0; i < st.N; i++ {
-				cl, err := net.DialTimeout("tcp", addr, 2*time.Second)
+				cl, err := dialTo(addr, 2*time.Second)
 				if err != nil {
 					continue
 				}
@@ -490,7 +528,7 @@ func runC17(tb stat.TB, c c17Case) {
 						go func() {
 							defer fw.Done()
 							for k := 0; k < 40; k++ {
-								if cl, err := net.DialTimeout("tcp", addr, time.Second); err == nil {
+								if cl, err := dialTo(addr, time.Second); err == nil {
 									stormMu.Lock()
 									storm = append(storm, cl)
 									stormMu.Unlock()
@@ -516,7 +554,7 @@ func runC17(tb stat.TB, c c17Case) {
 								return
 							default:
 							}
-							cl, err := net.DialTimeout("tcp", addr, 200*time.Millisecond)
+							cl, err := dialTo(addr, 200*time.Millisecond)
 							if err != nil {
 								continue
 							}
@@ -700,7 +738,7 @@ func runC17(tb stat.TB, c c17Case) {
 			time.Sleep(20 * time.Millisecond)
 		}
 	}
-	stat.Case(c, nt, "via_"+c.Via, fmt.Sprintf("refusals_%v", refusals))
+	stat.Case(c, nt, "via_"+c.Via, fmt.Sprintf("refusals_%v", refusals), fmt.Sprintf("tls_%v", c.TLS))
 }
 
 var propC17 = defProp("C17", "TestC17", genC17, runC17)
